@@ -168,3 +168,75 @@ REGISTRY["C13"] = {
         "nothing is required of loading a torn file itself",
     ],
 }
+
+
+def _c15_extra(prop, tier, seed, root, known):
+    """complete enumeration of the abort step / failing file event of one earlier session (fixed small kernels)"""
+    import json as _json
+    import os as _os
+    from . import core as C
+    from .kernelsim import c15_enumeration
+    plans = c15_enumeration(tier, KernelSim, 16, root)
+    results, failures = C.run_plans(KernelSim, plans, min(16, _os.cpu_count() or 4), root)
+    lines = []
+    code = 0
+    fired = {}
+    nviol = 0
+    for plan, res in zip(plans, results):
+        if res is None:
+            continue
+        for k, v in res["faults"].items():
+            fired[k] = fired.get(k, 0) + v
+        if res["violation"] is not None:
+            k = C.match_known(res["violation"], known)
+            if k is not None:
+                continue
+            nviol += 1
+            if nviol <= 2:
+                _os.makedirs(_os.path.join(C.OUT, "replays", prop), exist_ok=True)
+                path = _os.path.join(C.OUT, "replays", prop, "enum-" + res["digest"][:16] + ".json")
+                with open(path, "w") as f:
+                    _json.dump(dict(plan, violation=res["violation"]), f, indent=1)
+                lines.append(_json.dumps(res["violation"]))
+                lines.append(f"VIOLATION property={prop} replay={path}")
+                code = 1
+    if failures:
+        lines.append(f"HARNESS-FAULT {len(failures)} enumeration plans failed: {failures[0][1][-200:]}")
+        code = max(code, 2)
+    cov = {"evaluations": len(plans), "distinct_nontrivial": len({r["digest"] for r in results if r}),
+           "enumerated_histories": len(plans),
+           "enumeration": "every body-abort step (ended normally and abandoned) and every failing file event of one "
+                          "earlier session, for " + ("3 fixed kernels" if tier == "thorough" else "1 fixed kernel")
+                          + ", each followed by the target session",
+           "enumeration_faults_fired": fired}
+    return code, cov, lines
+
+
+REGISTRY["C15"]["extra"] = _c15_extra
+
+
+def _c17_extra(prop, tier, seed, root, known):
+    """the optimal-replacement reference itself is cross-checked by exhaustive search over replacement decisions"""
+    import itertools
+    from .pipelinesim import belady_fills, brute_min_fills
+    n = 0
+    bad = None
+    L = 7 if tier == "thorough" else 6
+    for length in range(0, L + 1):
+        for seq in itertools.product(range(3), repeat=length):
+            for cap in range(0, 3):
+                n += 1
+                if belady_fills(list(seq), cap) != brute_min_fills(seq, cap):
+                    bad = (seq, cap)
+    lines = []
+    code = 0
+    if bad is not None:
+        lines.append(f"HARNESS-FAULT reference model (MIN with bypass) disagrees with exhaustive search on {bad}")
+        code = 2
+    cov = {"evaluations": 0, "distinct_nontrivial": 0,
+           "reference_model_cross_check": f"Belady-MIN-with-bypass == exhaustive search over replacement decisions on all "
+                                          f"{n} (sequence over 3 lines of length <= {L}, capacity 0-2) instances"}
+    return code, cov, lines
+
+
+REGISTRY["C17"]["extra"] = _c17_extra
